@@ -280,7 +280,7 @@ class RealRunner:
       for u in r['us']:
         d = req.delta.add()
         if u['t'] is not None:
-          d.trial_id = str(u['t'])
+          d.trial_id = u.get('talias') or str(u['t'])
         d.metadatum.CopyFrom(svc.kv_list([u['kv']])[0])
       resp = sv.UpdateMetadata(req)
       return {'k': 'mdError' if resp.error_details else 'mdOk'}
